@@ -215,3 +215,156 @@ class Abstract:
 
     def __hash__(self):
         return hash(self.name)
+
+
+class ModelInterp(Interp):
+    """Interp + the builtins needed to evaluate resolution cascades over a MODEL of a dimension
+    (a handful of class representatives: alias / element id / sub-variable id / position / stale ...).
+
+    Builtin behaviours are a fixed table (EXC): int(None)->TypeError, int('x')->ValueError,
+    tuple.index(missing)->ValueError, dict[k]->KeyError, seq[i] out of range->IndexError,
+    NEGATIVE int subscripts wrap around (Python semantics).
+    """
+
+    def __init__(self, atoms, names: Optional[Dict[str, Any]] = None):
+        super().__init__(atoms, self._call)
+        self.names = names or {}
+
+    def ev(self, e: ast.expr) -> Any:
+        try:
+            return self.atoms(e)
+        except KeyError:
+            pass
+        if isinstance(e, ast.Name) and e.id in self.names:
+            return self.names[e.id]
+        if isinstance(e, (ast.GeneratorExp, ast.ListComp)):
+            return self._comp(e)
+        if isinstance(e, ast.DictComp):
+            out = {}
+            for env in self._iter_gens(e.generators, dict(self.names)):
+                sub = ModelInterp(self.atoms, env)
+                out[sub.ev(e.key)] = sub.ev(e.value)
+            return out
+        if isinstance(e, ast.BinOp) and isinstance(e.op, ast.Add):
+            a, b = self.ev(e.left), self.ev(e.right)
+            if isinstance(a, (list, tuple)) and type(a) is type(b):
+                return a + b
+            if isinstance(a, int) and isinstance(b, int):
+                return a + b
+            raise DTop("add")
+        if isinstance(e, ast.Subscript) and not isinstance(e.slice, ast.Slice):
+            base = self.ev(e.value)
+            idx = self.ev(e.slice)
+            if isinstance(base, (tuple, list)):
+                if not isinstance(idx, int) or isinstance(idx, bool):
+                    raise Raises("TypeError", u(e)[:60])
+                try:
+                    return base[idx]  # python semantics incl. negative wrap-around
+                except IndexError:
+                    raise Raises("IndexError", u(e)[:60])
+            if isinstance(base, dict):
+                if idx not in base:
+                    raise Raises("KeyError", u(e)[:60])
+                return base[idx]
+            if base is None:
+                raise Raises("TypeError", u(e)[:60])
+        return super().ev(e)
+
+    def _iter_gens(self, gens, env):
+        if not gens:
+            yield env
+            return
+        g = gens[0]
+        sub = ModelInterp(self.atoms, env)
+        it = sub.ev(g.iter)
+        for item in it:
+            env2 = dict(env)
+            self._bind(g.target, item, env2)
+            s2 = ModelInterp(self.atoms, env2)
+            if all(s2.truth(s2.ev(c)) for c in g.ifs):
+                yield from self._iter_gens(gens[1:], env2)
+
+    @staticmethod
+    def _bind(target, item, env):
+        if isinstance(target, ast.Name):
+            env[target.id] = item
+        elif isinstance(target, (ast.Tuple, ast.List)):
+            for t, v in zip(target.elts, item):
+                ModelInterp._bind(t, v, env)
+
+    def _comp(self, e):
+        out = []
+        for env in self._iter_gens(e.generators, dict(self.names)):
+            out.append(ModelInterp(self.atoms, env).ev(e.elt))
+        return out
+
+    def _call(self, c: ast.Call, it: "Interp"):
+        f = c.func
+        if isinstance(f, ast.Name):
+            args = [self.ev(a) for a in (c.args[:1] if f.id == "isinstance" else c.args)]
+            if f.id == "len":
+                return len(args[0])
+            if f.id == "int":
+                v = args[0]
+                if v is None or isinstance(v, (dict, list, tuple)):
+                    raise Raises("TypeError", u(c))
+                if isinstance(v, str):
+                    try:
+                        return int(v)
+                    except ValueError:
+                        raise Raises("ValueError", u(c))
+                return int(v)
+            if f.id == "str":
+                return str(args[0])
+            if f.id == "bool":
+                return bool(args[0])
+            if f.id == "isinstance":
+                tname = u(c.args[1])
+                types = {"str": str, "dict": dict, "int": int, "float": float, "list": list, "tuple": tuple}
+                if tname in types:
+                    v = args[0]
+                    return isinstance(v, types[tname]) and not (tname == "int" and isinstance(v, bool))
+                if tname.startswith("("):
+                    return any(isinstance(args[0], types[n.strip()]) for n in tname.strip("()").split(",") if n.strip() in types)
+                raise DTop("isinstance " + tname)
+            if f.id in ("zip",):
+                return list(zip(*args))
+            if f.id == "enumerate":
+                return list(enumerate(args[0]))
+            if f.id in ("tuple", "list"):
+                return (tuple if f.id == "tuple" else list)(args[0]) if args else (() if f.id == "tuple" else [])
+            if f.id == "frozenset" or f.id == "set":
+                return frozenset(args[0]) if args else frozenset()
+            if f.id == "any":
+                return any(self.truth(x) for x in args[0])
+            if f.id == "all":
+                return all(self.truth(x) for x in args[0])
+            raise DTop(f"call {f.id}")
+        if isinstance(f, ast.Attribute):
+            recv = self.ev(f.value)
+            args = [self.ev(a) for a in c.args]
+            m = f.attr
+            if m == "get":
+                if not isinstance(recv, dict):
+                    raise Raises("AttributeError", u(c)[:60])
+                return recv.get(args[0], args[1] if len(args) > 1 else None)
+            if m == "index" and isinstance(recv, (tuple, list)):
+                if args[0] in recv:
+                    return list(recv).index(args[0])
+                raise Raises("ValueError", u(c)[:60])
+            if m == "isnumeric" and isinstance(recv, str):
+                return recv.isnumeric()
+            if m == "lower":
+                if not isinstance(recv, str):
+                    raise Raises("AttributeError", u(c)[:60])
+                return recv.lower()
+            if m == "keys" and isinstance(recv, dict):
+                return list(recv.keys())
+            if m == "items" and isinstance(recv, dict):
+                return list(recv.items())
+            if m == "issubset":
+                return set(recv).issubset(set(args[0]))
+            if m == "intersection":
+                return set(recv) & set(args[0])
+            raise DTop(f"method {m}")
+        raise DTop("call")
